@@ -135,6 +135,16 @@ CLAIMED = {
         note="Sampling over split shapes and entry points; files are SimFiles; twin with the same seed is the oracle for 'splitting changes nothing'.",
         technique="deterministic twin execution with run-splitting fault (F16) and reference call-schedule model",
         design="§4 C15"),
+    "C01": dict(
+        level="exploration",
+        text=("Long seeded chains of the real drivers on analytically solvable systems (harmonic particles under every "
+              "shipped displacement proposal incl. composites and Hamiltonian moves; rigid dipole in a field under rotation "
+              "proposals; isobaric ideal gas; grand-canonical ideal gas of atoms and diatomics), 16 independent chains per "
+              "scenario, observables read after every step of srun(); Student t over chain means with a second, 4x longer "
+              "confirmation stage and effect floors, so sampling noise cannot become an alarm."),
+        note="Statistical: quick resolves biases of roughly 4-10 %, thorough about 2 %; analytic calculators; a configuration-independent veto callable is injected as a neutral perturbation.",
+        technique="seeded simulation of whole Markov chains with analytic ensemble averages as oracle (two-stage t-test over independent chains)",
+        design="§4 C01"),
 }
 
 NOT_APPLICABLE = {
